@@ -579,3 +579,45 @@ func (lc *laCtx) sumBelowLen(in ssa.Instruction, x, vv ssa.Value, c int64, stric
 	}
 	return false, fmt.Sprintf("no dominating fact gives %s + %d %s len(%s)", v, c, map[bool]string{true: "<", false: "<="}[strict], Expr(x))
 }
+
+// FactsImplyLenAtLeast: do the facts imply len(E) >= n for the length expression lenE ("len(x)")?
+func FactsImplyLenAtLeast(f Facts, lenE string, n int64) bool {
+	lo, _, ne := f.Range(lenE)
+	if lo < 0 {
+		lo = 0
+	}
+	for changed := true; changed; {
+		changed = false
+		for _, x := range ne {
+			if x == lo {
+				lo++
+				changed = true
+			}
+		}
+	}
+	if lo >= n {
+		return true
+	}
+	for _, a := range f {
+		l, op, r := a.L, a.Op, a.R
+		if r == lenE {
+			l, r, op = r, l, flipOp[op]
+		}
+		if l != lenE || (op != ">" && op != ">=") {
+			continue
+		}
+		var b int64
+		if k, err := strconv.ParseInt(r, 10, 64); err == nil {
+			b = k
+		} else if k, vv := splitPlus(r); vv != "" {
+			b = k
+		}
+		if op == ">" {
+			b++
+		}
+		if b >= n {
+			return true
+		}
+	}
+	return false
+}
